@@ -332,6 +332,11 @@ ADDENDA = {
     "C36": "Also decided: every occurrence of a bucket/proof/reservation in an invocation's arguments is consumed (no collapsing collection between the walk and consume_*).",
     "C40": "Also decided: proofs of the controlled asset are created only behind the primary-role Unlocked arm.",
     "C41": "Also decided: inside contribute a value is rounded up only where no pool units are in circulation.",
+    "C12": "Also decided: scan_keys tests its limit against the collected keys, never ahead of the presence filter.",
+    "C22": "Also decided: every validator matching ReferenceValidation maps each variant to the same audited NodeId predicate.",
+    "C38": "Also decided: a resource that becomes individually tracked for an account inherits the account's earlier unknown deposits.",
+    "C42": "Also decided: stake units are minted 1:1 only when the stake vault is empty.",
+    "C48": "Also decided: no key/signature decode error in signature_validator is discarded (an undecodable component fails the verification).",
     "C45": "Also decided: the memory-export predicate tests the export kind and the name.",
     "C47": "Also decided: the ptr+len bounds sum is formed in a 64-bit type.",
     "C49": "Also decided: add_event_unchecked is called only by the checked wrapper and lock_fee, whose slot is reserved on every path of start_lock_fee.",
